@@ -918,12 +918,30 @@ impl Prop for C18 {
                     obstacles.push((format!("{}.rej", op.target), "the reject path is a non-empty directory".into(), true));
                 }
             }
+            // a dangling symbolic link into a directory that does not exist, lying where an applying patch creates a
+            // file that is still there at the end: the file cannot be written (open follows the link: ENOENT)
+            const LINK: &str = "a dangling symbolic link into a missing directory lies where a patch creates a file";
+            let mut link_patch = None;
+            'find: for (j, m) in ws.metas.iter().enumerate().take(exp.applied) {
+                for o in &m.ops {
+                    if o.kind == "create" && o.fail_reason.is_none() && !ws.states[0].files.contains_key(&o.new_path) && ws.states[exp.applied].files.contains_key(&o.new_path) && o.target == o.new_path && !ws.states[0].files.keys().any(|k| k.starts_with(&format!("{}/", o.new_path))) {
+                        obstacles.push((o.new_path.clone(), LINK.into(), false));
+                        link_patch = Some(j);
+                        break 'find;
+                    }
+                }
+            }
             let pick = obstacles[(n + ws.metas.len()) % obstacles.len()].clone();
             let root = cx.env.fresh_dir("c18o-");
             ws.spec.materialise(&root);
             let op = root.join(&pick.0);
             let mut usable = true;
-            if pick.2 {
+            if pick.1 == LINK {
+                if let Some(par) = op.parent() {
+                    let _ = std::fs::create_dir_all(par);
+                }
+                usable = std::os::unix::fs::symlink("no-such-directory/target", &op).is_ok();
+            } else if pick.2 {
                 usable = std::fs::create_dir_all(op.join("sub")).is_ok();
             } else {
                 if let Some(par) = op.parent() {
@@ -934,7 +952,7 @@ impl Prop for C18 {
             if usable {
                 let obs = push(cx, &root, &case.opts, &Default::default());
                 ws::rm_rf(&root);
-                cx.label(&format!("obstacle-{}", if pick.2 { "rej-is-dir" } else if pick.0 == ".pc" { "pc-is-file" } else { "backup-dir-is-file" }));
+                cx.label(&format!("obstacle-{}", if pick.1 == LINK { "dangling-link-at-created-file" } else if pick.2 { "rej-is-dir" } else if pick.0 == ".pc" { "pc-is-file" } else { "backup-dir-is-file" }));
                 if obs.out.exit == Exit::Timeout {
                     return Verdict::Inconclusive("watchdog".into());
                 }
@@ -961,6 +979,9 @@ impl Prop for C18 {
                     }
                     if got_applied.len() > exp.applied || got_applied[..] != names[..got_applied.len()] {
                         return Verdict::Fail(format!("{}: applied-patches holds {:?}", what, got_applied));
+                    }
+                    if pick.1 == LINK && got_applied.len() > link_patch.unwrap() {
+                        return Verdict::Fail(format!("{}: applied-patches holds {:?} although a file of patch {} could not be written", what, got_applied, names[link_patch.unwrap()]));
                     }
                 }
             } else {
